@@ -6,6 +6,7 @@ import (
 	"math/big"
 	"sync"
 	"sync/atomic"
+	"syscall"
 
 	"github.com/goblimey/go-ntrip/rtcm/utils"
 
@@ -370,6 +371,80 @@ func monC14(c *child.Ctx, replay json.RawMessage) {
 			c.Violate("wrong-value", v.([2]string)[0], []byte(v.([2]string)[1]))
 		}
 		c.Count("concurrent_extractions", int64(nc))
+		c.EvalN(1)
+	}
+	// several readers of ONE buffer at the same time (reading is sharing), and a buffer
+	// in memory that cannot be written (a read-only mapping): extraction only reads
+	{
+		ns := c.Share(c.Pick(400000, 8000000))
+		shared := r.Bytes(64)
+		for j := range shared {
+			if j%3 == 0 {
+				shared[j] |= 0x80 // plenty of negative signed fields
+			}
+		}
+		var wg sync.WaitGroup
+		var bad atomic.Value
+		for g := 0; g < 4; g++ {
+			wg.Add(1)
+			go func(g int) {
+				defer wg.Done()
+				rr := ref.NewRand(r.Uint64() + uint64(g)*15485863)
+				for i := 0; i < ns/4 && bad.Load() == nil; i++ {
+					width := uint(rr.Range(1, 64))
+					pos := uint(rr.Range(0, 64*8-int(width)))
+					signed := width >= 2 && i%2 == 0
+					var want, got *big.Int
+					if signed {
+						want, got = ref.BitsBigSigned(shared, pos, width), big.NewInt(utils.GetBitsAsInt64(shared, pos, width))
+					} else {
+						want, got = ref.BitsBig(shared, pos, width), new(big.Int).SetUint64(utils.GetBitsAsUint64(shared, pos, width))
+					}
+					if got.Cmp(want) != 0 {
+						cj, _ := json.Marshal(bitsCase{Buf: hexs(shared), Pos: pos, Width: width, Signed: signed})
+						bad.Store([2]string{"extraction of " + mk2(pos, width, signed) + " returned " + got.String() + ", the addressed bits are " + want.String() + " (three other goroutines were reading fields of the same buffer at the same time)", string(cj)})
+					}
+				}
+			}(g)
+		}
+		wg.Wait()
+		if v := bad.Load(); v != nil {
+			c.Violate("wrong-value", v.([2]string)[0], []byte(v.([2]string)[1]))
+		}
+		c.Count("shared_buffer_extractions", int64(ns))
+		// read-only memory: a write faults and ends this process (reported as a crash)
+		if mem, err := syscall.Mmap(-1, 0, 4096, syscall.PROT_READ|syscall.PROT_WRITE, syscall.MAP_ANON|syscall.MAP_PRIVATE); err == nil {
+			copy(mem, r.Bytes(4096))
+			for j := 0; j < 4096; j += 2 {
+				mem[j] |= 0x80
+			}
+			if syscall.Mprotect(mem, syscall.PROT_READ) == nil {
+				ro := mem[:256]
+				for i := 0; i < 20000; i++ {
+					width := uint(r.Range(1, 64))
+					pos := uint(r.Range(0, 256*8-int(width)))
+					k := bitsCase{Buf: "(read-only mapping)", Pos: pos, Width: width, Signed: width >= 2 && i%2 == 0}
+					if i%256 == 0 {
+						c.BeginV(k)
+					}
+					var want, got *big.Int
+					if k.Signed {
+						want, got = ref.BitsBigSigned(ro, pos, width), big.NewInt(utils.GetBitsAsInt64(ro, pos, width))
+					} else {
+						want, got = ref.BitsBig(ro, pos, width), new(big.Int).SetUint64(utils.GetBitsAsUint64(ro, pos, width))
+					}
+					if got.Cmp(want) != 0 {
+						kk := k
+						kk.Buf = hexs(ro)
+						cj, _ := json.Marshal(kk)
+						c.Violate("wrong-value", "extraction of "+mk2(pos, width, k.Signed)+" from a read-only buffer returned "+got.String()+", the addressed bits are "+want.String(), cj)
+						break
+					}
+				}
+				c.Count("extractions_from_read_only_memory", 20000)
+			}
+			syscall.Munmap(mem)
+		}
 		c.EvalN(1)
 	}
 	// large buffers: fields next to every multiple of 64 KiB (and of 16 MiB in the
